@@ -31,9 +31,9 @@ Definition kind_eq_dec (a b : kind) : {a = b} + {a <> b}.
 Proof. decide equality. Defined.
 
 (* the declaration-time fields of options::base (+ "a default was given" of option / multi_option / toggle) *)
-Record obj := mkObj { o_short : str; o_env : str; o_metavar : str; o_default : bool }.
-(* base(): short_ = "", env_ = "", metavar_ = "ARG"; no default *)
-Definition new_obj : obj := mkObj [] [] [x41; x52; x47] false.
+Record obj := mkObj { o_short : str; o_env : str; o_metavar : str; o_default : bool; o_optional : bool }.
+(* base(): short_ = "", env_ = "", metavar_ = "ARG"; no default; is_optional_ = false *)
+Definition new_obj : obj := mkObj [] [] [x41; x52; x47] false false.
 
 Definition objid := (str * kind * str)%type.          (* group key, kind, long name *)
 Definition id_grp (i : objid) : str := fst (fst i).
@@ -110,17 +110,19 @@ Definition group_declare (p : parser) (gn : str) (k : kind) (n : str) : parser *
 Definition obj_short_name (o : obj) (s : str) : option obj :=
   if negb (is_empty (o_short o)) && (if str_eq_dec (o_short o) s then false else true) then None
   else if negb (length s =? 1) then None
-  else Some (mkObj s (o_env o) (o_metavar o) (o_default o)).
+  else Some (mkObj s (o_env o) (o_metavar o) (o_default o) (o_optional o)).
 Definition obj_env (o : obj) (e : str) : option obj :=
   if negb (is_empty (o_env o)) && (if str_eq_dec (o_env o) e then false else true) then None
-  else Some (mkObj (o_short o) e (o_metavar o) (o_default o)).
+  else Some (mkObj (o_short o) e (o_metavar o) (o_default o) (o_optional o)).
 Definition obj_metavar (o : obj) (m : str) : option obj :=
-  if is_empty m then None else Some (mkObj (o_short o) (o_env o) m (o_default o)).
-Definition obj_default (o : obj) : option obj := Some (mkObj (o_short o) (o_env o) (o_metavar o) true).
+  if is_empty m then None else Some (mkObj (o_short o) (o_env o) m (o_default o) (o_optional o)).
+Definition obj_default (o : obj) : option obj := Some (mkObj (o_short o) (o_env o) (o_metavar o) true (o_optional o)).
+(* option::optional() / multi_option::optional(); toggles have no such member (the drivers never send it) *)
+Definition obj_optional (o : obj) : option obj := Some (mkObj (o_short o) (o_env o) (o_metavar o) (o_default o) true).
 
-Inductive setter := SShort (s : str) | SEnv (e : str) | SMetavar (m : str) | SDefault.
+Inductive setter := SShort (s : str) | SEnv (e : str) | SMetavar (m : str) | SDefault | SOptional.
 Definition apply_setter (x : setter) (o : obj) : option obj :=
-  match x with SShort s => obj_short_name o s | SEnv e => obj_env o e | SMetavar m => obj_metavar o m | SDefault => obj_default o end.
+  match x with SShort s => obj_short_name o s | SEnv e => obj_env o e | SMetavar m => obj_metavar o m | SDefault => obj_default o | SOptional => obj_optional o end.
 
 (* ---- operations of a declaring program *)
 Inductive gsel := GDirect | GNamed (g : str).      (* parser.option(..)  |  parser.group(g).option(..) *)
@@ -165,10 +167,10 @@ Fixpoint check_consistency (l : list (objid * obj)) (seen : list str) : bool :=
   | (_, o) :: r => if is_empty (o_short o) then check_consistency r seen
                    else if mem_str (o_short o) seen then false else check_consistency r (o_short o :: seen)
   end.
-(* option::check / multi_option::check with no value, the environment variable unset and optional() not used:
-   a default or parsing_error; toggle::check never raises then *)
+(* option::check / multi_option::check with no value and the environment variable unset:
+   a default, or optional(), or parsing_error; toggle::check never raises then *)
 Definition check_one (x : objid * obj) : bool :=
-  match id_kind (fst x) with KToggle => true | _ => o_default (snd x) end.
+  match id_kind (fst x) with KToggle => true | _ => o_default (snd x) || o_optional (snd x) end.
 Definition parse_empty (p : parser) : presult :=
   let l := for_each_option p in
   if negb (check_consistency l []) then PDev else if forallb check_one l then POk else PUser.
